@@ -1,4 +1,235 @@
-//! placeholder for the second Queryable implementation (C15), filled in later
-pub fn run_gen(_ast: &str, _doc: &str) -> Result<String, String> {
-    Err("GEN not implemented".into())
+//! A second, independent implementation of the `Queryable` trait (C15): a JSON-like tree that is
+//! NOT serde_json::Value — objects are vectors of (name, value) pairs kept in name order, numbers
+//! keep their integer/float kind like serde_json does.  Queries are evaluated over it with the
+//! crate's generic engine and the result is compared with the evaluation over serde_json::Value.
+use crate::sexp::{self, Sexp};
+use jsonpath_rust::query::js_path_process;
+use jsonpath_rust::query::queryable::Queryable;
+use serde_json::Value;
+use std::borrow::Cow;
+use std::collections::HashMap;
+
+#[derive(Debug, Clone, PartialEq, Default)]
+pub enum V {
+    #[default]
+    Null,
+    Bool(bool),
+    Int(i64),
+    UInt(u64),
+    Float(f64),
+    Str(String),
+    Arr(Vec<V>),
+    Obj(Vec<(String, V)>),
 }
+
+impl From<&str> for V {
+    fn from(s: &str) -> Self {
+        V::Str(s.to_string())
+    }
+}
+impl From<String> for V {
+    fn from(s: String) -> Self {
+        V::Str(s)
+    }
+}
+impl From<bool> for V {
+    fn from(b: bool) -> Self {
+        V::Bool(b)
+    }
+}
+impl From<i64> for V {
+    fn from(i: i64) -> Self {
+        V::Int(i)
+    }
+}
+impl From<f64> for V {
+    fn from(f: f64) -> Self {
+        if f.is_finite() {
+            V::Float(f)
+        } else {
+            V::Null
+        }
+    }
+}
+impl From<Vec<V>> for V {
+    fn from(v: Vec<V>) -> Self {
+        V::Arr(v)
+    }
+}
+
+impl V {
+    fn arr(&self) -> Option<&Vec<V>> {
+        match self {
+            V::Arr(a) => Some(a),
+            _ => None,
+        }
+    }
+}
+
+impl Queryable for V {
+    fn get(&self, key: &str) -> Option<&Self> {
+        let key = if key.starts_with('\'') && key.ends_with('\'') {
+            key.trim_matches(|c| c == '\'')
+        } else if key.starts_with('"') && key.ends_with('"') {
+            key.trim_matches(|c| c == '"')
+        } else {
+            key
+        };
+        match self {
+            V::Obj(m) => m.iter().find(|(k, _)| k == key).map(|(_, v)| v),
+            _ => None,
+        }
+    }
+    fn as_array(&self) -> Option<&Vec<Self>> {
+        self.arr()
+    }
+    fn as_object(&self) -> Option<Vec<(&String, &Self)>> {
+        match self {
+            V::Obj(m) => Some(m.iter().map(|(k, v)| (k, v)).collect()),
+            _ => None,
+        }
+    }
+    fn as_str(&self) -> Option<&str> {
+        match self {
+            V::Str(s) => Some(s.as_str()),
+            _ => None,
+        }
+    }
+    fn as_i64(&self) -> Option<i64> {
+        match self {
+            V::Int(i) => Some(*i),
+            V::UInt(u) => i64::try_from(*u).ok(),
+            _ => None,
+        }
+    }
+    fn as_f64(&self) -> Option<f64> {
+        match self {
+            V::Int(i) => Some(*i as f64),
+            V::UInt(u) => Some(*u as f64),
+            V::Float(f) => Some(*f),
+            _ => None,
+        }
+    }
+    fn as_bool(&self) -> Option<bool> {
+        match self {
+            V::Bool(b) => Some(*b),
+            _ => None,
+        }
+    }
+    fn null() -> Self {
+        V::Null
+    }
+    fn extension_custom(name: &str, args: Vec<Cow<Self>>) -> Self {
+        let two = |f: &dyn Fn(&V, &V) -> V| match args.as_slice() {
+            [l, r] => f(l.as_ref(), r.as_ref()),
+            _ => V::Null,
+        };
+        match name {
+            "in" => two(&|l, r| r.arr().map(|e| V::Bool(e.iter().any(|x| x == l))).unwrap_or(V::Null)),
+            "nin" => two(&|l, r| r.arr().map(|e| V::Bool(!e.iter().any(|x| x == l))).unwrap_or(V::Null)),
+            "none_of" => two(&|l, r| match (l.arr(), r.arr()) {
+                (Some(a), Some(b)) => V::Bool(a.iter().all(|x| !b.iter().any(|y| x == y))),
+                _ => V::Null,
+            }),
+            "any_of" => two(&|l, r| match (l.arr(), r.arr()) {
+                (Some(a), Some(b)) => V::Bool(a.iter().any(|x| b.iter().any(|y| x == y))),
+                _ => V::Null,
+            }),
+            "subset_of" => two(&|l, r| match (l.arr(), r.arr()) {
+                (Some(a), Some(b)) => V::Bool(a.iter().all(|x| b.iter().any(|y| x == y))),
+                _ => V::Null,
+            }),
+            _ => V::Null,
+        }
+    }
+}
+
+fn to_v(v: &Value) -> V {
+    match v {
+        Value::Null => V::Null,
+        Value::Bool(b) => V::Bool(*b),
+        Value::Number(n) => {
+            if let Some(i) = n.as_i64() {
+                V::Int(i)
+            } else if let Some(u) = n.as_u64() {
+                V::UInt(u)
+            } else {
+                V::Float(n.as_f64().unwrap_or(0.0))
+            }
+        }
+        Value::String(s) => V::Str(s.clone()),
+        Value::Array(a) => V::Arr(a.iter().map(to_v).collect()),
+        Value::Object(m) => V::Obj(m.iter().map(|(k, x)| (k.clone(), to_v(x))).collect()),
+    }
+}
+
+fn cps(s: &str) -> String {
+    s.chars().map(|c| (c as u32).to_string()).collect::<Vec<_>>().join(".")
+}
+
+fn index_v<'a>(v: &'a V, loc: String, out: &mut HashMap<usize, String>) {
+    out.insert(v as *const V as usize, loc.clone());
+    match v {
+        V::Arr(a) => {
+            for (i, e) in a.iter().enumerate() {
+                index_v(e, format!("{}/i:{}", loc, i), out);
+            }
+        }
+        V::Obj(m) => {
+            for (k, e) in m.iter() {
+                index_v(e, format!("{}/n:{}", loc, cps(k)), out);
+            }
+        }
+        _ => {}
+    }
+}
+
+/// evaluates the AST over both representations of the same document
+pub fn run_gen(ast: &str, doc: &str) -> Result<String, String> {
+    let q = crate::query_of(&sexp::parse(ast)?)?;
+    let d: Value = crate::doc_of(&sexp::parse(doc)?)?;
+    let v = to_v(&d);
+    let mut index = HashMap::new();
+    index_v(&v, "$".to_string(), &mut index);
+    let mut vindex = HashMap::new();
+    crate::index_doc(&d, "$".to_string(), &mut vindex);
+    let rv = js_path_process(&q, &v);
+    let rd = js_path_process(&q, &d);
+    match (rv, rd) {
+        (Ok(rv), Ok(rd)) => {
+            let items: Vec<(String, String)> = rv
+                .into_iter()
+                .map(|r| {
+                    let path = r.clone().path();
+                    let val = r.val();
+                    (
+                        index.get(&(val as *const V as usize)).cloned().unwrap_or_else(|| "FOREIGN".to_string()),
+                        path,
+                    )
+                })
+                .collect();
+            let ditems: Vec<(String, String)> = rd
+                .into_iter()
+                .map(|r| {
+                    let path = r.clone().path();
+                    let val = r.val();
+                    (
+                        vindex.get(&(val as *const Value as usize)).cloned().unwrap_or_else(|| "FOREIGN".to_string()),
+                        path,
+                    )
+                })
+                .collect();
+            let same = items == ditems;
+            Ok(format!(
+                "OK\t{}\tsame={}",
+                items.iter().map(|(l, p)| format!("{}|{}", l, cps(p))).collect::<Vec<_>>().join(" "),
+                same as u8
+            ))
+        }
+        (Err(_), Err(_)) => Ok("ERR".to_string()),
+        _ => Ok("MIXED".to_string()),
+    }
+}
+
+#[allow(dead_code)]
+fn _unused(_: &Sexp) {}
